@@ -64,6 +64,9 @@ type Case struct {
 	Pool      *PoolSpec       `json:"pool,omitempty"`
 	Violation *Violation      `json:"violation,omitempty"`
 	Minimised bool            `json:"minimised,omitempty"`
+	// Flaky: the violation depends on a source of nondeterminism inside the implementation that the
+	// simulator does not own (Go map iteration order); replay retries until it reproduces.
+	Flaky string `json:"flaky,omitempty"`
 }
 
 func (c *Case) Clone() *Case {
